@@ -11,8 +11,13 @@ import MosVerif.Model.WireIO
 namespace MosVerif.Wire
 
 def respCap : Nat := Facts.resp_cap          -- 65535
-def udpFloor : Nat := Facts.udp_floor        -- 512
-def udpMax : Nat := Facts.udp_max            -- 65507 = maxUdpPayloadSize
+def udpFloor : Nat := 512                    -- tied by translation: `udpClamp_translated` (Lemmas/TranslatedC09)
+def udpMax : Nat := 65507                    -- = maxUdpPayloadSize
+
+/-- the two clamps of `udpServer.handleReq`: `if clientUdpSize < 512 {…}`, `if clientUdpSize > maxUdpPayloadSize {…}` -/
+def udpClamp (s : Nat) : Nat :=
+  let s := if s < udpFloor then udpFloor else s
+  if s > udpMax then udpMax else s
 
 /-- `packResp(m, compression, size)`: the buffer has `m.Len()` octets. -/
 def packResp (m : Msg) (c : Bool) (size : Nat) : Res Bytes :=
@@ -36,8 +41,7 @@ def clientUdpSize (q : Msg) : Nat :=
   let s := match queryOpt q with
     | some o => o.rclass
     | none => 0
-  let s := if s < udpFloor then udpFloor else s
-  if s > udpMax then udpMax else s
+  udpClamp s
 
 end MosVerif.Wire
 
